@@ -37,6 +37,8 @@ package syncer
 //@   precall verifyResult\)\.addLeafToWriteLog$ :: (defined(nd) && argIs(0, nd.LeafNode) && proof.V == 0) || (defined(ptr) && argIs(0, ptr) && ptr.Clean)
 //@   note write log of a verified proof: an entry is logged only for a pointer this invocation built and hashed itself, or - in version 0 proofs only - for the leaf serialized inside an internal node (which that node's recomputed hash covers); in version 1 the inline leaf is NOT hash-bound (it is replaced by the separately verified child) and is never logged
 //@   note every full entry is decoded, its children are verified recursively and attached, and only then is its hash recomputed; hash-only entries carry no node
+//@   precall syncer\.ProofVerifier\)\.verifyProof$ :: argIs(3, depth + 1) && depth <= maxProofDepth
+//@   note (C16) EVERY recursive descent - into the left and right subtree and equally into the separately serialized attached-leaf slot of a version 1 proof, whose entry the verifier does not require to be a leaf - goes exactly one level deeper and is made only below the depth bound: the recursion depth, hence the stack a proof from an untrusted peer can make the verifier use, is bounded by maxProofDepth whatever the proof chains through which slot (seed C16_k kept the depth for the leaf slot: 50 000 internal nodes nested through it were accepted)
 
 //@ func ProofVerifier.verifyProofOpts
 //@   props C04 C12
